@@ -29,11 +29,15 @@ OTHERWISE, ARISING FROM, OUT OF OR IN CONNECTION WITH THE SOFTWARE OR THE USE OR
 
 from __future__ import annotations
 
+import itertools
 import string
 from typing import TYPE_CHECKING
 
 if TYPE_CHECKING:
     from collections.abc import Container
+
+
+MAX_KEYS = 1000
 
 
 class AnalysisError(Exception):
@@ -203,12 +207,9 @@ def all_keys(key_possible_bytes: list[list[int]], key_part: tuple[int, ...] = ()
     """
     Produce all combinations of possible key chars
     """
-    keys = []
-    if offset >= len(key_possible_bytes):
-        return [bytes(key_part)]
-    for c in key_possible_bytes[offset]:
-        keys += all_keys(key_possible_bytes, (*key_part, c), offset + 1)
-    return keys
+    # The number of combinations is exponential in the key length, only the first MAX_KEYS are produced
+    combinations = itertools.product(*key_possible_bytes[offset:])
+    return [bytes((*key_part, *key)) for key in itertools.islice(combinations, MAX_KEYS)]
 
 
 # -----------------------------------------------------------------------------
